@@ -210,6 +210,7 @@ pub fn worker_handle(req: &J) -> J {
         "filter.parse" => crate::ops_filter::worker_parse(req),
         "filter.weq" => crate::ops_filter::worker_weq(req),
         "filter.rel" => crate::ops_filter::worker_rel(req),
+        "filter.chain" => crate::ops_filter::worker_chain(req),
         "capi.begin" | "capi.call" | "capi.end" | "capi.live" | "capi.nullcall" | "capi.selftest" => crate::ops_capi::worker_capi(req),
         _ => json!({"outcome":"err","back":{"k":"null"},"msg":"unknown worker request"}),
     }
